@@ -321,6 +321,21 @@ func R19(group string) Rule {
 			}
 			c.Check(okCopy, "R19", "cam/predicate-on-copy", fc.Pos(), "the predicate runs on copyRow of the row read from the store", "the predicate filter is evaluated on the authoritative row: cells it strips are lost when the row is written back")
 			c.Check(strings.Contains(strings.Join(fieldChain(fc.Call.Args[0]), "."), "PredicateFilter"), "R19", "cam/predicate-is-request's", fc.Pos(), "the evaluated filter is req.PredicateFilter", "the evaluated filter is not the request's predicate")
+			// the row the decision is based on and the row that is written back come from one read
+			if ac := callsTo(fn, core.PkgBttest, "applyMutations"); len(ac) == 1 {
+				same := false
+				if cp, ok := core.Resolve(fc.Call.Args[1]).(*ssa.Call); ok && len(cp.Call.Args) == 1 {
+					same = sameRow(P, cp.Call.Args[0], ac[0].Call.Args[1])
+				}
+				c.Check(same, "R19", "cam/decision-and-write-on-one-read", ac[0].Pos(), "the predicate is evaluated on (a copy of) the very row read that is then mutated and stored", "the predicate is evaluated on one read of the row and the mutations are applied to another read: a write admitted in between is neither seen by the predicate nor excluded — two check-and-mutates can both act on a state only one of them could have seen")
+			}
+			// emptiness ("yields at least one cell") is judged on the filtered copy
+			for i, ec := range callsTo(fn, core.PkgBttest, "isEmpty") {
+				if !core.InstrReaches(fc, ec) {
+					continue // the no-predicate branch looks at the row itself
+				}
+				c.Check(core.SameValue(ec.Call.Args[0], fc.Call.Args[1]), "R19", fmt.Sprintf("cam/emptiness-of-filtered-copy#%d", i+1), ec.Pos(), "isEmpty is applied to the row the predicate filtered", "after the predicate ran, emptiness is tested on a different row than the one the predicate filtered: a predicate that strips every cell still reports a match")
+			}
 			// (b) selector identity
 			var sel ssa.Value
 			var selStore *ssa.Store
